@@ -394,3 +394,42 @@ func LineProgram() diffrun.Program {
 
 // LineFiles lists the Go files of LineProgram's package main.
 func LineFiles() []string { return []string{"t_one.go", "k_two.go", "w_three.go", "c_four.go"} }
+
+// PackagesProgram: many packages whose relative order is not fixed by imports: generic code of one
+// package instantiated from four packages that do not import each other, and a package that hands out
+// values of types declared in nine packages its importer never imports.
+func PackagesProgram() diffrun.Program {
+	name := "c17_pkgs"
+	mod := diffrun.ModName(name)
+	r := func(s string) string { return strings.ReplaceAll(s, "MOD", mod) }
+	files := map[string]string{
+		"lib/lib.go": `package lib
+
+type Box[T any] struct{ V T }
+
+func (b Box[T]) Get() T { return b.V }
+
+func Last[T any](xs ...T) T { return xs[len(xs)-1] }
+
+func Twice[T any](x T) [2]T { return [2]T{x, x} }
+`,
+	}
+	dirs := []struct{ name, typ, val string }{{"east", "int32", "1"}, {"west", "string", `"w"`}, {"north", "float64", "1.5"}, {"south", "bool", "true"}}
+	imports, uses := "", ""
+	for _, d := range dirs {
+		files[d.name+"/"+d.name+".go"] = r("package " + d.name + "\n\nimport \"MOD/lib\"\n\ntype Local struct{ f " + d.typ + " }\n\nfunc Use() int {\n\tb := lib.Box[" + d.typ + "]{" + d.val + "}\n\t_ = b.Get()\n\t_ = lib.Last(" + d.val + ", " + d.val + ")\n\t_ = lib.Twice(Local{" + d.val + "})\n\t_ = lib.Box[Local]{}\n\treturn len(lib.Twice(b))\n}\n")
+		imports += "\t\"MOD/" + d.name + "\"\n"
+		uses += " + " + d.name + ".Use()"
+	}
+	midImports, midFuncs, mainUses := "", "", ""
+	for i := 1; i <= 9; i++ {
+		pn := "p" + string(rune('0'+i))
+		files[pn+"/"+pn+".go"] = "package " + pn + "\n\ntype T struct{ N int }\n\nfunc (t T) Get() int { return t.N }\n"
+		midImports += "\t\"MOD/" + pn + "\"\n"
+		midFuncs += "func F" + string(rune('0'+i)) + "() " + pn + ".T { return " + pn + ".T{" + string(rune('0'+i)) + "} }\n"
+		mainUses += " + mid.F" + string(rune('0'+i)) + "().Get()"
+	}
+	files["mid/mid.go"] = r("package mid\n\nimport (\n" + midImports + ")\n\n" + midFuncs)
+	files["main.go"] = r("package main\n\nimport (\n" + imports + "\t\"MOD/mid\"\n)\n\nfunc main() {\n\tn := 0" + uses + mainUses + "\n\tvar x interface{} = mid.F3()\n\tif _, ok := x.(interface{ Get() int }); ok {\n\t\tn++\n\t}\n\tprintln(\"C17/pkgs\", itoa(int64(n)))\n}\n")
+	return diffrun.Program{Name: name, Files: files}
+}
